@@ -2,6 +2,7 @@ package mon
 
 import (
 	"bytes"
+	"errors"
 	"fmt"
 	"math/rand"
 	"strings"
@@ -47,7 +48,7 @@ func (c17) RequiredBuckets(tier string) []string {
 		"kind:genbank", "kind:genbank-region", "kind:genbank-slice", "kind:genbank-contig", "kind:genbank-slice2",
 		"writer:fasta", "writer:auto",
 		"alphabet:single-byte-record", "residues:cyclic-alphabet", "residues:random",
-		"empty-record-not-last", "multiple-of-70-not-last",
+		"empty-record-not-last", "multiple-of-70-not-last", "after-a-failed-write",
 		"cli:fasta clear", "cli:fasta reverse", "cli:fasta complement", "cli:fasta select", "cli:fasta sort", "cli:fasta pick", "cli:fasta -o", "cli:fasta cache-on", "cli:plumbing delete", "cli:plumbing extract", "cli:plumbing insert", "cli:plumbing split", "cli:plumbing join", "cli:plumbing search", "cli:plumbing stream", "cli:fasta stream", "cli:fasta len%70=0", "cli:fasta CONTIG-only record",
 	}
 }
@@ -545,6 +546,13 @@ func (m c17) check(c *fw.Ctx, recs []c17rec, writer string) {
 	var werr error
 	werrAt := -1
 	p, val, site, stack := fw.Guard(func() {
+		// now and then a write to a full device fails part-way first: what
+		// is written afterwards, anywhere in the process, is unaffected.
+		if c17FailTick++; c17FailTick%5 == 0 && len(seqs) > 0 {
+			fw := &c17FailWriter{left: 1 + (c17FailTick/5)%40}
+			seqio.NewWriter(fw, seqio.FastaFile).WriteSeq(seqs[len(seqs)-1])
+			c.Bucket("after-a-failed-write")
+		}
 		var w seqio.SeqWriter
 		if writer == "auto" {
 			w = seqio.NewWriter(&buf, seqio.DefaultFile)
@@ -866,4 +874,19 @@ func (m c17) Run(c *fw.Ctx) {
 	}
 	// F. `gts <cmd> -F fasta` on the real binary.
 	cliFasta(c)
+}
+
+var c17FailTick int
+
+// c17FailWriter accepts a few bytes and then fails like a full device.
+type c17FailWriter struct{ left int }
+
+func (w *c17FailWriter) Write(p []byte) (int, error) {
+	if len(p) <= w.left {
+		w.left -= len(p)
+		return len(p), nil
+	}
+	n := w.left
+	w.left = 0
+	return n, errors.New("no space left on device")
 }
